@@ -83,6 +83,16 @@ CLAIMED = {
             'half-way requests are outside the quantifier; float32 model store tolerance derived from float32 rounding of the flux and of its log10.',
             'deterministic simulation: seeded worlds/windows x complete enumeration of the chunk-size knob under listing permutation; reference-array and cross-knob differential oracles',
             'DESIGN.md section 5 (C16)'),
+    'C11': ('exploration',
+            'History clause by simulation: one Fitter shared by two simulated users who interleave up to 6 fit calls over a pool of Source '
+            'objects (re-used objects, both users on the same object) with failing calls in between; every result is compared bit-exactly with '
+            'a fresh Fitter\'s, the Source, the model store and earlier results must be untouched. The permutation and flux-scaling clauses are '
+            'paired-world relations (pure; checked here only because the run owns both worlds): filters permuted with the photometry, models '
+            'permuted inside the package (re-authored + re-convolved), fluxes and errors scaled over 8 decades.',
+            'Bit-equality only between identically constructed Fitters in one process; paired-world numerics within 1e-9 and only for '
+            'well-conditioned regressions; rankings may differ inside exact ties.',
+            'deterministic simulation: seeded interleavings of calls by two users on one shared Fitter with failing calls as faults, fresh-fitter differential oracle; paired-world relations',
+            'DESIGN.md section 5 (C11)'),
 }
 
 NOT_APPLICABLE = {
